@@ -95,13 +95,14 @@ def run(rep, tier):
         ('IGN-start-prefix', 'a start rule the sub-grammar defines itself begins by skipping ignorable text when '
                              'only an ancestor declares ignore patterns'),
         ('IGN-every-literal', 'literals of a sub-grammar skip ignorable text when only an ancestor declares it'),
+        ('WIRE-global-store', 'rule functions keep nothing computed from their context in module-level names'),
         ('IGN-rule', 'the synthetic ignore rule reaches every named ignored rule by a (late-bound) reference, so a '
                      'sub-grammar that overrides an ignored rule changes what inherited rules skip'),
     ]:
         rep.rule(rid, txt)
     found, stats, nmods = routes.run(rep, 'C13', ['SUPER-', 'WIRE-', 'FREE-name', 'CONV-', 'SUBIMPORT-', 'START-inherited',
                                                    'IGN-start-prefix', 'IGN-every-literal', 'IGN-rule'],
-                                     label_filter=lambda msg: msg.startswith('sub-'), always=('WIRE-ctx-param',))
+                                     label_filter=lambda msg: msg.startswith('sub-'), always=('WIRE-ctx-param', 'WIRE-global-store'))
     # (the prefix 'WIRE-' selects WIRE-import-shadow as well)
     rep.floor('route modules emitted', nmods, 26)
     rep.floor('context attribute reads examined', stats['ctx_reads'], 60)
